@@ -47,7 +47,10 @@ def alloc_obs(tag, modes=None, excl=False):
 
 
 def build_obs(tier, tables=None):
-    return alloc_obs("c18")
+    # (the compound calls with the failing allocation as ONE symbolic variable give no verdict within 1500 s
+    #  each - measured; they stay enumerated per k in both tiers)
+    obs = alloc_obs("c18")
+    return obs
 
 
 def run(tier, seed):
